@@ -16,8 +16,8 @@ Bounded run-time contract driver (B part), non-real-time mode.  Sub-checks:
                wake-ups happen is not part of the contract).  L = 5 quick,
                6 thorough.
   in-routine   the same sequences without tick (L-1), applied from inside
-               another routine (the caller is a routine, not the main thread),
-               and with play() on a TempoClock.
+               another routine (the caller is a routine, not the main thread).
+  tempo-clock  the same sequences (L-1) with play() on a TempoClock(2).
   condition    1-3 waiters on 1-2 clocks, every sequence of
                {test=True, test=False, signal, unhang, start-late-waiter}
                applied from outside (scheduler drained after every step) and
@@ -835,6 +835,7 @@ def main(rep):
         run_sequences(rep, 'sequences', L, OPS, 'main', 'sys')
     if wants(rep, 'in-routine'):
         run_sequences(rep, 'in-routine', L - 1, OPS_NOTICK, 'routine', 'sys')
+    if wants(rep, 'tempo-clock'):
         run_sequences(rep, 'tempo-clock', L - 1, OPS, 'main', 'tempo')
     if wants(rep, 'condition'):
         run_waiting(rep, 'condition')
